@@ -50,7 +50,7 @@ fn fam(name: &str) -> i64 {
 }
 
 fn family_name(f: usize) -> &'static str {
-    ["Basic", "ReadOnly", "Shapes", "IntRes", "Consume", "Children", "ChildrenMore", "Debug", "Display", "AsRef", "IntResMixed", "Attrs", "Life", "Dup", "FwdKV", "FwdIO", "GrpA", "GrpR", "GrpB", "GrpD", "GrpC"][f]
+    ["Basic", "ReadOnly", "Shapes", "IntRes", "Consume", "Children", "ChildrenMore", "Debug", "Display", "AsRef", "IntResMixed", "Attrs", "Life", "Dup", "FwdKV", "FwdIO", "Lend", "GrpA", "GrpR", "GrpB", "GrpD", "GrpC"][f]
 }
 
 fn create_pair(st: &mut State, family: usize, mask: u32, cont: usize, ctxsel: usize) -> Option<Pair> {
